@@ -10,15 +10,19 @@
 (*   q (the first one is the query delimiter "?")                          *)
 (* forms: origin ("/" + symbols), dslash ("//" + symbols),                 *)
 (*        abs ("http://h/" + symbols), star ("*"),                         *)
-(*        mount ("/m/" + symbols with SCRIPT_NAME configured as "/m")      *)
+(*        absempty ("http://h" + query only: the path of the target is     *)
+(*        empty, and so is PATH_INFO),                                     *)
+(*        mount ("/m/" + symbols with SCRIPT_NAME configured as "/m"),     *)
+(*        mounth (the same, SCRIPT_NAME given by the SCRIPT_NAME header of *)
+(*        a permitted forwarder: loopback or unix-socket peer)             *)
 (* byte tokens (decoded): a A / % hi ; + ht z ?                            *)
 (***************************************************************************)
 EXTENDS Naturals, Sequences, FiniteSets, TLC
 
 Syms == {"a", "/", "pct_ascii", "pct_high", "pct_2f", "pct_25", "pct_bad", "raw_high", ";", "+", "ht", "q"}
-Forms == {"origin", "dslash", "abs", "star", "mount"}
+Forms == {"origin", "dslash", "abs", "absempty", "star", "mount", "mounth"}
 (* length of SCRIPT_NAME as configured for the worker (raw_env / process environment) *)
-ScriptLen(form) == IF form = "mount" THEN 2 ELSE 0
+ScriptLen(form) == IF form \in {"mount", "mounth"} THEN 2 ELSE 0
 
 Decode(s) == CASE s = "a" -> <<"a">> [] s = "/" -> <<"/">> [] s = "pct_ascii" -> <<"A">> [] s = "pct_high" -> <<"hi">>
                [] s = "pct_2f" -> <<"/">> [] s = "pct_25" -> <<"%">> [] s = "pct_bad" -> <<"%", "z", "z">>
@@ -35,6 +39,7 @@ DecodeAll(t) == IF t = <<>> THEN <<>> ELSE Decode(Head(t)) \o DecodeAll(Tail(t))
 (* PATH_INFO: the percent-decoded path, one latin-1 character per byte, after the configured SCRIPT_NAME *)
 ExpectedPath(form, t) ==
   CASE form = "star" -> <<"*">>
+    [] form = "absempty" -> <<>>
     [] form = "dslash" -> <<"/", "/">> \o DecodeAll(PathSyms(t))
     [] OTHER -> <<"/">> \o DecodeAll(PathSyms(t))
 (* QUERY_STRING: as sent, not decoded *)
@@ -46,12 +51,13 @@ ExpectedVar(hdrs, n) == SelectSeq([i \in DOMAIN hdrs |-> IF hdrs[i][1] = n THEN 
 Targets(n) == UNION {[1..k -> Syms] : k \in 0..n}
 CONSTANT MaxLen
 VARIABLE tgt
-Init == tgt \in [form : Forms, t : Targets(MaxLen)] /\ (tgt.form = "star" => tgt.t = <<>>)
+WellFormed(x) == (x.form = "star" => x.t = <<>>) /\ (x.form = "absempty" => PathSyms(x.t) = <<>>)
+Init == tgt \in [form : Forms, t : Targets(MaxLen)] /\ WellFormed(tgt)
 Next == UNCHANGED tgt
 Spec == Init /\ [][Next]_tgt
 (* sanity of the reference itself *)
 PathLenIsDecodedBytes ==
-  Len(ExpectedPath(tgt.form, tgt.t)) >= (IF tgt.form = "dslash" THEN 2 ELSE 1)
+  Len(ExpectedPath(tgt.form, tgt.t)) >= (IF tgt.form = "dslash" THEN 2 ELSE IF tgt.form = "absempty" THEN 0 ELSE 1)
 QueryNeverDecoded == \A i \in DOMAIN ExpectedQuery(tgt.form, tgt.t) : ExpectedQuery(tgt.form, tgt.t)[i] \in Syms
 SplitIsPartition ==
   tgt.form # "star" => (PathSyms(tgt.t) \o (IF FirstQ(tgt.t) > Len(tgt.t) THEN <<>> ELSE <<"q">> \o QuerySyms(tgt.t))) = tgt.t
